@@ -613,6 +613,7 @@ def check_fset(case, out):
     out.sample = {"sets": [[f["vars"] for f in fs] for fs in case["sets"]], "marginalize": marg}
 
 
+THOROUGH_SCALE = 6  # thorough-tier example counts are n["thorough"] x this (one thorough run then takes roughly 5-10 minutes on 16 cores)
 SUBCHECKS = [
     Sub("factor_set", check_fset, strategy=lambda tier: fset_case(), n={"quick": 150, "thorough": 2500}, shards={"quick": 2, "thorough": 4},
         doc="FactorSet product / divide / marginalize: the represented function (product of the members) vs the dictionary reference; operands untouched"),
